@@ -57,6 +57,13 @@ def run(prop, tier, replay):
                             mode, idx, b["line"], w, json.dumps(ev["pre"]), json.dumps(ev.get("line"))[:500]),
                             {"mode": mode, "chunk_seed": seed() * 10000 + idx, "line": b["line"], "why": b["why"], "event": ev})
         ck.add_part("trace lines of both disassemblers judged by Disasm.tla", kind="tlc-trace", events=nev, chunks=len(jobs))
+        # exhaustive corner pre-states exported by TLC from CpuMC.tla, with the trace lines of both disassemblers
+        for b in cpuchk.mc_and_replay(ck, prop, tier, vh, trace=True):
+            for w in b["why"]:
+                if "_line_" in w:
+                    ev = b["ev"]
+                    ck.violation("CpuMC replay chunk %d line %d: %s: pre=%s line=%s" % (b["chunk"], b["line"], w, json.dumps(ev["pre"]), json.dumps(ev.get("line"))[:500]),
+                                 {"line": b["line"], "why": b["why"], "event": ev})
     finally:
         shutil.rmtree(d, ignore_errors=True)
     # non-perturbation pairs
